@@ -146,6 +146,7 @@ def check_property(prop, tier, a):
     known = load_known()
     kf = [f for f in known.get("findings", []) if f["property"] == prop]
     kf_classes = {f["class"] for f in kf if f.get("class")}
+    kf_prefixes = [f["class_prefix"] for f in kf if f.get("class_prefix")]
     kf_oblig = {o for f in kf for o in f.get("obligations", [])}
 
     obligations = discharged = 0
@@ -257,7 +258,7 @@ def check_property(prop, tier, a):
     for f in native.get("failures", []):
         native_fail_classes.setdefault(f["class"], []).append(f)
     for cls, fl in sorted(native_fail_classes.items()):
-        if cls in kf_classes:
+        if cls in kf_classes or any(cls.startswith(px) for px in kf_prefixes):
             known_lines.append(f"KNOWN-FINDING: property={prop} {cls}: {fl[0]['observed'][:160]} ({len(fl)} case(s))")
             continue
         n += 1
@@ -298,7 +299,7 @@ def check_property(prop, tier, a):
                     rec["failing_inputs_found"] = len(fails)
         if not found and native.get("failures"):
             # the bounded harness exhibited a failing input for this property on the same tree
-            unl = [f for f in native["failures"] if f["class"] not in kf_classes]
+            unl = [f for f in native["failures"] if f["class"] not in kf_classes and not any(f["class"].startswith(px) for px in kf_prefixes)]
             if unl:
                 found = True
                 rec["native_case"] = unl[0]
